@@ -179,7 +179,7 @@ def judge_model(ctx, vec, obs, o, s, isA, isB, cls, meta):
     ctx.verdict('model_binned_over_own_centre_and_width', ok, cls=gcls, detail=detail, vector=meta)
 
 
-def run_vectors(ctx, vecs, rng, perm_cap):
+def run_vectors(ctx, vecs, rng, perm_cap, one_file_source=False):
     with tempfile.TemporaryDirectory(prefix='c17_') as tmpdir:
         for vi, vec in enumerate(vecs):
             n = len(vec['rows'])
@@ -189,11 +189,13 @@ def run_vectors(ctx, vecs, rng, perm_cap):
                 rng.shuffle(rest)
                 perms = [perms[0]] + rest[:perm_cap - 1]
             sources = ['array', 'text'] + (['hdf5'] if vec['ncol'] == 4 else [])
+            if one_file_source:      # array in every row order, text and hdf5 alternating from vector to vector
+                sources = ['array', sources[1 + vi % (len(sources) - 1)]]
             for source in sources:
                 scale = 1 if (vi + len(source)) % 2 == 0 else 4
                 ref = None
                 for perm in perms:
-                    if source != 'array' and len(perms) > 6 and perm != perms[0] and rng.random() < 0.5:
+                    if source != 'array' and (len(perms) > 6 or one_file_source) and perm != perms[0] and rng.random() < 0.5:
                         continue       # file-based sources: half of the permutations of >= 4 rows
                     o = judge_vector(ctx, vec, perm, source, scale, tmpdir, ref)
                     if ref is None:
@@ -385,7 +387,7 @@ def run(ctx):
                       vectors='2-4 (2-5) generic rows over 6 (7) wavelengths, every permutation (<=24; 5 rows: 40 sampled), sources array/text/hdf5, unit scales 1 and 4',
                       traces='2-24 rows, wavelengths k/8 um (k in 8..128), 3/4 columns, random order, three sources; 4 columns: widths 1/8 um (disjoint), random 1/8..2 um, or narrow channels + 1-3 broad bands; random native model of 16-70 contiguous cells with integer cm-1 edges',
                       model_vectors='3 (3-4) rows over wavelengths {4,5,6,8,9,12}, widths {1,5} um in all combinations (4 columns) / derived (3 columns), native cells 40/80/120 cm-1, every row order, three sources',
-                      obsbin_exhaustive='2-3 (2-4) rows over {4,5,10,20} ({4,5,10,20,25}) um, widths {1,7} um, FluxBinner window algorithm on the 12.5 (0.5) cm-1 lattice')
+                      obsbin_exhaustive='2-3 (2-4) rows over {4,5,10,20} ({4,5,10,20,25}) um, widths {1,7} um, native cells 200/400/600 (100/200/300) cm-1, FluxBinner window algorithm on the 12.5 (0.5) cm-1 lattice')
     ctx.assumptions = ['distinct positive wavelengths, >=2 rows, 4 columns: 0 < width < 2 wl; 3 columns: lowest mirrored edge positive',
                        'widths / edges: either consistent reading accepted (wavelength-space or wavenumber-space)',
                        'HDF5 written by the harness in the layout taurex.taurex.main() writes (Output/Spectra/instrument_*)',
@@ -400,10 +402,10 @@ def run(ctx):
     ctx.expect_refuted('refute-widthsrev', 'MC_Observation', 'MC_Observation_ref_widthsrev.cfg', 'RowsTogether')
     ctx.expect_refuted('refute-notsquared', 'MC_Observation', 'MC_Observation_ref_notsquared.cfg', 'RowsTogether')
     # last sentence: model binned to the observation = overlap-weighted mean over each element's own bin
-    ctx.check_spec('obsbin-4col', 'MC_ObsBin', 'MC_ObsBin_4col_%s.cfg' % t)
-    ctx.expect_refuted('refute-resumestart', 'MC_ObsBin', 'MC_ObsBin_ref_resumestart.cfg', 'AlgRefinesObs')
+    ctx.check_spec('obsbin-4col', 'MC_ObsBin', 'MC_ObsBin_4col_%s.cfg' % t, workers=8 if q else 16)
+    ctx.expect_refuted('refute-resumestart', 'MC_ObsBin', 'MC_ObsBin_ref_resumestart.cfg', 'AlgRefinesObs', workers=2)
     if not q:
-        ctx.expect_refuted('refute-resumestop', 'MC_ObsBin', 'MC_ObsBin_ref_resumestop.cfg', 'AlgRefinesObs')
+        ctx.expect_refuted('refute-resumestop', 'MC_ObsBin', 'MC_ObsBin_ref_resumestop.cfg', 'AlgRefinesObs', workers=2)
     rng = random.Random(ctx.seed * 131 + 17)
     sfx = '' if q else '_thorough'
     nv = 0
@@ -416,19 +418,18 @@ def run(ctx):
         run_vectors(ctx, vecs, rng, 24 if q else 40)
         ctx.add_sample(dict(vector=vecs[len(vecs) // 2]))
     ctx.note('%d exported vectors replayed in every row order through array / text / hdf5 sources' % nv)
-    nm = 0
-    for c in ('4col', '3col'):
-        res = ctx.check_spec('export-model-' + c, 'MC_ObsBin', 'EX_ObsBin_%s%s.cfg' % (c, sfx), workers=1)
-        vecs = res.tagged('VEC')
-        if not vecs:
-            raise Machinery('no model vectors exported for ' + c)
-        if c == '4col':      # every geometry class of the bins must be exercised
-            missing = [g for g in GEO if not any(v['geoA'][g] for v in vecs)]
-            if missing or not any(v['geoA']['lownonasc'] and v['geoA']['upnonasc'] for v in vecs):
-                raise Machinery('exported observations lack bin geometry classes %r' % (missing,))
-        nm += len(vecs)
-        run_vectors(ctx, vecs, rng, 24 if q else 40)
-        ctx.add_sample(dict(vector={k: vecs[len(vecs) // 2][k] for k in ('rows', 'ncol', 'nat', 'f', 'modA', 'geoA')}))
+    res = ctx.check_spec('export-model', 'MC_ObsBin', 'EX_ObsBin%s.cfg' % sfx, workers=1)
+    vecs = res.tagged('VEC')
+    v4 = [v for v in vecs if v['ncol'] == 4]
+    if not v4 or len(v4) == len(vecs):
+        raise Machinery('no 3- or no 4-column model vectors exported')
+    # every geometry class of the bins must be exercised
+    missing = [g for g in GEO if not any(v['geoA'][g] for v in v4)]
+    if missing or not any(v['geoA']['lownonasc'] and v['geoA']['upnonasc'] for v in v4):
+        raise Machinery('exported observations lack bin geometry classes %r' % (missing,))
+    nm = len(vecs)
+    run_vectors(ctx, vecs, rng, 24 if q else 40, one_file_source=True)
+    ctx.add_sample(dict(vector={k: v4[len(v4) // 2][k] for k in ('rows', 'ncol', 'nat', 'f', 'modA', 'geoA')}))
     ctx.note('%d exported (rows, native model, exact binned model) vectors: narrow channels and broad bands, every row order' % nm)
     run_traces(ctx, 150 if q else 1500)
 
